@@ -255,6 +255,10 @@ def apply_op(tl, op):
         r = operator.imul(tl, multiplier(op))
         if r is not tl:
             raise RuntimeError("*= returned a new object")
+    elif k == "SetSliceN":
+        tl[sl(op[1])] = {"none": None, "zero": 0, "false": False}[op[2]]
+    elif k == "ExtendN":
+        tl.extend({"none": None, "zero": 0, "false": False}[op[1]])
     elif k == "InsertX":
         tl.insert(Idx(op[1]), val(op[2]))
     elif k == "PopX":
